@@ -127,6 +127,10 @@ pub fn spec_level(op: BinaryOp) -> (u8, bool) {
 fn num_text(n: f64) -> String {
     // harness-side number text: Rust's shortest round-trip form, which the literal grammar accepts
     // for finite non-negative numbers except exponent forms like 1e21 (also accepted: ^"e" integer)
+    if n.is_infinite() {
+        // a literal too large for a double reads as infinity
+        return if n > 0.0 { "1e999".into() } else { "-1e999".into() };
+    }
     if n.fract() == 0.0 && n.abs() < 1e15 {
         format!("{:.0}", n)
     } else {
@@ -730,6 +734,9 @@ pub fn literal_slot(kinds: &[Kind]) -> Vec<T> {
         T::Str("\u{e9}t\u{e9}".into()),
         T::Num(1.5),
         T::Num(0.0),
+        T::Num(f64::INFINITY),
+        T::Num(f64::NEG_INFINITY),
+        T::Num(-2.0),
         T::Bool(true),
         T::Null,
         T::Inp("k".into()),
